@@ -396,7 +396,12 @@ mod imp {
                 cmds.push(json!(["run"]));
             }
         }
-        if (profile == "drop" || rng.chance(15)) && !cmds.is_empty() {
+        if profile == "threads" {
+            // other threads fire the wakers handed to the source and to the closure futures while the owner
+            // thread runs the wake-only executor
+            cmds = vec![json!(["poll"]), json!(["threads", 1 + rng.below(3), 10 + rng.below(40), rng.next() % 1000000])];
+        }
+        if (profile == "drop" || rng.chance(15)) && !cmds.is_empty() && profile != "threads" {
             let at = rng.below(cmds.len() as u64 + 1) as usize;
             cmds.insert(at, json!(["drop"]));
         }
